@@ -218,6 +218,9 @@ Proof.
                | rewrite arrived_cons_val]; cbn [length]; lia.
 Qed.
 
+Lemma Forall2_len {A B} (R : A -> B -> Prop) l l' : Forall2 R l l' -> length l = length l'.
+Proof. induction 1; cbn [length]; congruence. Qed.
+
 Lemma tok_inj (W : list cwrite) : NoDup (map w_tok W) ->
   forall w w', In w W -> In w' W -> w_tok w = w_tok w' -> w = w'.
 Proof.
@@ -403,7 +406,7 @@ Proof.
   unfold read_result in *. cbn [fst snd] in *. apply orb_false_iff in Hs. destruct Hs as [Hbad Hshort].
   apply negb_false_iff, N.eqb_eq in Hshort.
   change (m_nchunks (md_of w)) with n in Hshort. change (m_token (md_of w)) with (w_tok w) in Hbad.
-  pose proof (Forall2_length HF) as HL.
+  pose proof (Forall2_len _ _ _ HF) as HL.
   assert (HLi : length idxs = N.to_nat n) by (unfold idxs; rewrite map_length, seq_length; reflexivity).
   assert (Hlen : length (arrived rs) = length rs) by (unfold len in Hshort; lia).
   rewrite (full_arrival w Hw idxs rs HF Hlen Hbad).
@@ -466,3 +469,241 @@ Lemma gat_all_or_nothing : forall k now W s ttl opq,
   exists g, snd (brun (chunked_gat k ttl opq) s now) = HVals [g] None /\
             (g_miss g = true \/ exists w, In w W /\ g_data g = w_data w /\ g_flags g = w_flags w).
 Proof. intros. apply gat_aon; assumption. Qed.
+
+(* ================= C04: delete ================= *)
+Lemma b_exec_delete s now k :
+  b_exec s now (QDelete k) = (fst (b_delete s now k), BStatus (snd (b_delete s now k))).
+Proof. cbn [b_exec]. destruct (b_delete s now k). reflexivity. Qed.
+
+Lemma delete_keeps_none s now ck mk : s mk = None -> fst (b_delete s now ck) mk = None.
+Proof.
+  intros H. unfold gb_delete. destruct (live now s ck); cbn [fst]; [|assumption].
+  unfold upd. destruct (bytes_eqb mk ck); [reflexivity|assumption].
+Qed.
+
+Lemma bexecs_delete_none now mk : forall keys s,
+  s mk = None -> fst (bexecs s now (map QDelete keys)) mk = None.
+Proof.
+  induction keys as [|ck r IH]; intros s H; [exact H|].
+  cbn [map]. rewrite bexecs_cons. cbn [fst]. apply IH. rewrite b_exec_delete. cbn [fst].
+  apply delete_keeps_none. assumption.
+Qed.
+
+Lemma delete_unreadable : forall s now k s' opq q,
+  brun (chunked_delete k) s now = (s', HDone) ->
+  brun (chunked_get [mkGI k opq q] []) s' now = (s', HVals [mkGR k [] 0 0 opq q true] None).
+Proof.
+  intros s now k s' opq q H.
+  assert (Hnone : s' (meta_key k) = None).
+  { unfold chunked_delete, with_meta in H. rewrite brun_req, b_exec_get in H. cbn [fst snd] in H.
+    destruct (live now s (meta_key k)) as [e|] eqn:E.
+    - rewrite brun_req, b_exec_delete in H. unfold gb_delete in H. rewrite E in H. cbn [fst snd] in H.
+      rewrite err_success in H. rewrite brun_breqs in H. cbn [brun] in H.
+      injection H as H _. rewrite <- H. apply bexecs_delete_none. apply upd_same.
+    - rewrite err_enoent, N.eqb_refl in H. cbn [brun] in H. discriminate. }
+  cbn [chunked_get gi_key gi_opaque gi_quiet]. unfold with_meta. rewrite brun_req, b_exec_get. cbn [fst snd].
+  rewrite (live_none_of_none now s' _ Hnone). rewrite err_enoent, N.eqb_refl.
+  cbn [chunked_get brun rev app]. reflexivity.
+Qed.
+
+(* ================= C04: confinement ================= *)
+Inductive allreq {A} (P : breq -> Prop) : bprog A -> Prop :=
+| ar_ret a : allreq P (BRet a)
+| ar_req q K : P q -> (forall r, allreq P (K r)) -> allreq P (BReq q K).
+
+Lemma allreq_btrace {A} (P : breq -> Prop) (p : bprog A) : allreq P p -> forall s now q, In q (btrace p s now) -> P q.
+Proof.
+  induction 1 as [a|q0 K Hq HK IH]; intros s now q Hin.
+  - destruct Hin.
+  - cbn [btrace] in Hin. destruct (b_exec s now q0) as [s1 r]. destruct Hin as [<-|Hin]; [assumption|].
+    apply (IH r s1 now q Hin).
+Qed.
+
+Lemma allreq_mono {A} (P Q : breq -> Prop) (p : bprog A) :
+  (forall q, P q -> Q q) -> allreq P p -> allreq Q p.
+Proof. intros HPQ. induction 1; constructor; auto. Qed.
+
+Lemma allreq_breqs {A} (P : breq -> Prop) qs : forall acc (K : list bres -> bprog A),
+  Forall P qs -> (forall rs, allreq P (K rs)) -> allreq P (breqs qs acc K).
+Proof.
+  induction qs as [|q r IH]; intros acc K HF HK; cbn [breqs]; [apply HK|].
+  inversion HF; subst. constructor; [assumption|]. intros x. apply IH; assumption.
+Qed.
+
+Lemma allreq_write_chunks (P : breq -> Prop) qs : Forall P qs -> allreq P (write_chunks qs).
+Proof.
+  induction 1 as [|q r Hq HF IH]; cbn [write_chunks]; [constructor|].
+  constructor; [assumption|]. intros [|st|f v]; try constructor.
+  destruct (err_of_status st); [constructor|assumption].
+Qed.
+
+Lemma allreq_with_meta {A} (P : breq -> Prop) q (miss : bprog A) (fail : N -> bprog A) (K : meta -> bprog A) :
+  P q -> allreq P miss -> (forall e, allreq P (fail e)) -> (forall md, allreq P (K md)) ->
+  allreq P (with_meta q miss fail K).
+Proof.
+  intros Hq Hm Hf HK. unfold with_meta. constructor; [assumption|].
+  intros [|st|f v]; [apply Hf| |apply HK].
+  destruct (err_of_status st) as [e|]; [|apply HK]. destruct (e =? EKeyNotFound); [assumption|apply Hf].
+Qed.
+
+(* requests confined to the backend keys derived from the client keys ks *)
+Definition okq (ks : list bytes) (q : breq) : Prop :=
+  forall bk, key_of q = Some bk -> exists k, In k ks /\ derived k bk.
+
+Lemma okq_mono ks ks' q : incl ks ks' -> okq ks q -> okq ks' q.
+Proof. intros Hi H bk Hb. destruct (H bk Hb) as [k [Hk Hd]]. exists k. split; [apply Hi|]; assumption. Qed.
+
+Lemma okq_meta ks k q : In k ks -> key_of q = Some (meta_key k) -> okq ks q.
+Proof. intros Hk Hq bk Hb. rewrite Hq in Hb. inversion Hb; subst. exists k. split; [assumption|left; reflexivity]. Qed.
+Lemma okq_chunk ks k i q : In k ks -> key_of q = Some (chunk_key k i) -> okq ks q.
+Proof.
+  intros Hk Hq bk Hb. rewrite Hq in Hb. inversion Hb; subst. exists k.
+  split; [assumption|right; exists i; reflexivity].
+Qed.
+Lemma okq_noop ks : okq ks QNoop.
+Proof. intros bk Hb. discriminate. Qed.
+
+Lemma okq_chunk_keys ks k (mk : bytes -> breq) n :
+  In k ks -> (forall ck, key_of (mk ck) = Some ck) -> Forall (okq ks) (map mk (chunk_keys k n)).
+Proof.
+  intros Hk Hmk. apply Forall_forall. intros q Hq. apply in_map_iff in Hq. destruct Hq as [ck [<- Hck]].
+  unfold chunk_keys in Hck. apply in_map_iff in Hck. destruct Hck as [i [<- _]].
+  apply (okq_chunk ks k (N.of_nat i)); [assumption|apply Hmk].
+Qed.
+
+Lemma allreq_read_chunks {A} ks k md touch (cont : bytes * bool -> bprog A) :
+  In k ks -> (forall dm, allreq (okq ks) (cont dm)) -> allreq (okq ks) (read_chunks k md touch cont).
+Proof.
+  intros Hk Hc. unfold read_chunks. apply allreq_breqs.
+  - apply okq_chunk_keys; [assumption|]. intros ck. destruct touch; reflexivity.
+  - intros rs. constructor; [apply okq_noop|]. intros _. apply Hc.
+Qed.
+
+Lemma allreq_set ks tok cnow m k d f ttl :
+  In k ks -> allreq (okq ks) (chunked_set tok cnow m k d f ttl).
+Proof.
+  intros Hk. unfold chunked_set. destruct (c_exptime cnow ttl) as [exp expired].
+  destruct expired; [constructor|]. constructor; [apply (okq_meta ks k); [assumption|reflexivity]|].
+  intros [|st|f' v]; try constructor. destruct (err_of_status st); [constructor|].
+  apply allreq_write_chunks. unfold chunk_sets. apply Forall_forall. intros q Hq.
+  apply in_map_iff in Hq. destruct Hq as [i [<- _]].
+  apply (okq_chunk ks k (N.of_nat i)); [assumption|reflexivity].
+Qed.
+
+Lemma allreq_get : forall items acc, allreq (okq (map gi_key items)) (chunked_get items acc).
+Proof.
+  induction items as [|it r IH]; intros acc; cbn [chunked_get]; [constructor|].
+  assert (Hin : In (gi_key it) (map gi_key (it :: r))) by (left; reflexivity).
+  assert (Hmono : forall acc', allreq (okq (map gi_key (it :: r))) (chunked_get r acc')).
+  { intros acc'. eapply allreq_mono; [|apply IH]. intros q. apply okq_mono.
+    intros x Hx. right. assumption. }
+  apply allreq_with_meta.
+  - apply (okq_meta _ (gi_key it)); [assumption|reflexivity].
+  - apply Hmono.
+  - intros e. constructor.
+  - intros md. apply allreq_read_chunks; [assumption|]. intros [d miss]. apply Hmono.
+Qed.
+
+Lemma allreq_prog tok cnow q : allreq (okq (hreq_keys q)) (chunked_prog tok cnow q).
+Proof.
+  destruct q as [m k d f ttl|front k d|k|k ttl|items|items|k ttl opq]; cbn [chunked_prog hreq_keys].
+  - apply allreq_set. left. reflexivity.
+  - unfold chunked_cat. apply allreq_with_meta.
+    + apply (okq_meta _ k); [left; reflexivity|reflexivity].
+    + constructor.
+    + intros e. constructor.
+    + intros md. apply allreq_read_chunks; [left; reflexivity|]. intros [old miss].
+      destruct miss; [constructor|]. apply allreq_set. left. reflexivity.
+  - unfold chunked_delete. apply allreq_with_meta.
+    + apply (okq_meta _ k); [left; reflexivity|reflexivity].
+    + constructor.
+    + intros e. constructor.
+    + intros md. constructor; [apply (okq_meta _ k); [left; reflexivity|reflexivity]|].
+      intros [|st|f v]; try constructor. destruct (err_of_status st); [constructor|].
+      apply allreq_breqs; [|intros; constructor].
+      apply okq_chunk_keys; [left; reflexivity|reflexivity].
+  - unfold chunked_touch. apply allreq_with_meta.
+    + apply (okq_meta _ k); [left; reflexivity|reflexivity].
+    + constructor.
+    + intros e. constructor.
+    + intros md. apply allreq_breqs.
+      * apply okq_chunk_keys; [left; reflexivity|reflexivity].
+      * intros rs. destruct (any_notfound rs); [constructor|].
+        constructor; [apply (okq_meta _ k); [left; reflexivity|reflexivity]|].
+        intros [|st|f v]; try constructor. destruct (err_of_status st); constructor.
+  - apply allreq_get.
+  - constructor.
+  - unfold chunked_gat. apply allreq_with_meta.
+    + apply (okq_meta _ k); [left; reflexivity|reflexivity].
+    + constructor.
+    + intros e. constructor.
+    + intros md. apply allreq_read_chunks; [left; reflexivity|]. intros [d miss]. constructor.
+Qed.
+
+Lemma confinement : forall tok cnow q s now bq bk,
+  In bq (btrace (chunked_prog tok cnow q) s now) -> key_of bq = Some bk ->
+  exists k, In k (hreq_keys q) /\ derived k bk.
+Proof.
+  intros tok cnow q s now bq bk Hin Hk.
+  exact (allreq_btrace _ _ (allreq_prog tok cnow q) s now bq Hin bk Hk).
+Qed.
+
+(* ================= C05: concrete witnesses ================= *)
+Definition apply_reqs (now : N) (s : store) (qs : list breq) : store :=
+  fold_left (fun s q => fst (b_exec s now q)) qs s.
+
+Lemma reach_apply k now W w : In w W -> forall qs s,
+  incl qs (write_reqs k w) -> reach k now W s -> reach k now W (apply_reqs now s qs).
+Proof.
+  intros Hw. induction qs as [|q r IH]; intros s Hi Hr; [exact Hr|].
+  cbn [apply_reqs fold_left]. apply IH.
+  - intros x Hx. apply Hi. right. assumption.
+  - apply (reach_req k now W s w q Hr Hw). apply Hi. left. reflexivity.
+Qed.
+
+Definition torn_k : bytes := [107].
+Definition torn_w : cwrite :=
+  mkW (repeat 1 16) 1000 (repeat 1 1096 ++ repeat 2 1096 ++ repeat 3 800) 7 0.
+Definition torn_s : store :=
+  upd (apply_reqs 1000 empty_store (write_reqs torn_k torn_w)) (chunk_key torn_k 1) None.
+
+Lemma without_count_check_refuted : exists k now W s,
+  reach k now W s /\
+  let md := dec_meta (match s (meta_key k) with Some e => e_data e | None => [] end) in
+  let vals := arrived (map (fun ck => snd (b_exec s now (QGetQ ck))) (chunk_keys k (m_nchunks md))) in
+  existsb (fun v => negb (bytes_eqb (take tokenSize v) (m_token md))) vals = false /\
+  forall w, In w W -> assemble md 0 vals ++ zeros (m_length md - len (assemble md 0 vals)) <> w_data w.
+Proof.
+  exists torn_k, 1000, [torn_w], torn_s. split.
+  - unfold torn_s. apply reach_lose. apply (reach_apply torn_k 1000 [torn_w] torn_w).
+    + left. reflexivity.
+    + apply incl_refl.
+    + apply reach_empty.
+  - cbv zeta. split.
+    + vm_compute. reflexivity.
+    + intros w [<-|[]]. apply bytes_eqb_neq. vm_compute. reflexivity.
+Qed.
+
+Lemma c05_example :
+  let k := [107] in
+  let w1 := mkW (repeat 1 16) 1000 (repeat 5 3000) 1 0 in
+  let w2 := mkW (repeat 2 16) 1000 (repeat 6 1500) 2 0 in
+  Forall (write_ok k) [w1; w2] /\ NoDup (map w_tok [w1; w2]) /\
+  exists s, reach k 1000 [w1; w2] s /\ s (chunk_key k 1) <> None /\ s (chunk_key k 2) = None.
+Proof.
+  intros k w1 w2. split; [|split].
+  - repeat constructor; vm_compute; reflexivity.
+  - cbn [map]. constructor.
+    + intros [H|[]]. vm_compute in H. discriminate H.
+    + constructor; [intros []|constructor].
+  - set (q := QSet MSet (chunk_key k 1) (w_flags w1) (w_ttl w1)
+                   (w_tok w1 ++ chunk_i (chunk_data (len k)) (w_data w1) 1)).
+    exists (fst (b_exec empty_store 1000 q)). split; [|split].
+    + apply (reach_req k 1000 [w1; w2] empty_store w1 q).
+      * apply reach_empty.
+      * left. reflexivity.
+      * unfold write_reqs. cbv zeta. right. unfold chunk_sets. apply in_map_iff.
+        exists 1%nat. split; [reflexivity|]. apply in_seq. vm_compute. lia.
+    + vm_compute. discriminate.
+    + vm_compute. reflexivity.
+Qed.
